@@ -73,14 +73,28 @@ Bad(e) ==
                        (IF Holders(areas, e.addr, Len(e.data)) # {} THEN {"store-permission-ignored"} ELSE {"store-out-of-bounds-accepted"})
                 ELSE IF e.k = "ok" THEN {"store-wrong-footprint"}
                 ELSE {"store-" \o e.k}
-           [] e.gk \in {"rmw", "push"} ->
-                LET need == IF e.gk = "rmw" THEN PR ELSE PW
-                    can == Accessible(areas, e.addr, e.n, need, PW) IN
+           [] e.gk = "rmw" ->
+                LET can == Accessible(areas, e.addr, e.n, PR, PW) IN
                 IF e.k = "ok" /\ ~can THEN
-                     (IF Holders(areas, e.addr, e.n) # {} THEN {e.gk \o "-permission-ignored"} ELSE {e.gk \o "-out-of-bounds-accepted"})
-                ELSE IF e.k # "ok" /\ can THEN {e.gk \o "-" \o e.k}
-                ELSE IF e.k # "ok" /\ e.areas # areas THEN {"failed-" \o e.gk \o "-changed-memory"}
-                ELSE IF e.k = "ok" /\ ~DiffWithin(areas, e.areas, e.addr, e.n) THEN {e.gk \o "-wrong-footprint"}
+                     (IF Holders(areas, e.addr, e.n) # {} THEN {"rmw-permission-ignored"} ELSE {"rmw-out-of-bounds-accepted"})
+                ELSE IF e.k # "ok" /\ can THEN {"rmw-" \o e.k}
+                ELSE IF e.k # "ok" /\ e.areas # areas THEN {"failed-rmw-changed-memory"}
+                ELSE IF e.k = "ok" /\ ~DiffWithin(areas, e.areas, e.addr, e.n) THEN {"rmw-wrong-footprint"}
+                ELSE {}
+           [] e.gk = "push" ->
+                \* the implicit store of PUSH / CALL.  e.addr = RSP - 8, e.n = 16: the slot is [RSP-8, RSP) on hardware and
+                \* [RSP, RSP+8) under ax's documented stack convention (KNOWN_FINDINGS C04).  Either convention is accepted,
+                \* but the store must lie completely inside ONE writable area and change nothing outside its slot.
+                LET hwok == Accessible(areas, e.addr, 8, PW, PW)
+                    axok == Accessible(areas, e.addr + 8, 8, PW, PW) IN
+                IF e.k = "ok" THEN
+                     IF \/ hwok /\ DiffWithin(areas, e.areas, e.addr, 8)
+                        \/ axok /\ DiffWithin(areas, e.areas, e.addr + 8, 8) THEN {}
+                     ELSE IF hwok \/ axok THEN {"push-wrong-footprint"}
+                     ELSE IF Holders(areas, e.addr, 8) # {} \/ Holders(areas, e.addr + 8, 8) # {} THEN {"push-permission-ignored"}
+                     ELSE {"push-out-of-bounds-accepted"}
+                ELSE IF hwok /\ axok THEN {"push-" \o e.k}
+                ELSE IF e.areas # areas THEN {"failed-push-changed-memory"}
                 ELSE {}
            [] e.gk = "fetch" ->
                 IF e.k = "ok" /\ ~FetchAllowed(areas, e.addr) THEN {"fetch-permission-ignored"}
